@@ -15,7 +15,7 @@ import modelgen
 import vlib
 from checks.c01 import _files, _errclass
 
-THEOREMS = ["Yardl.C17.blocks_irrelevant", "Yardl.C17.any_read_schedule_is_a_prefix",
+THEOREMS = ["Yardl.C17.blocks_irrelevant", "Yardl.C17.empty_batch_writes_nothing", "Yardl.C17.any_read_schedule_is_a_prefix",
             "Yardl.C17.any_read_schedule_delivers_all"]
 
 
@@ -37,6 +37,10 @@ def run(report, tier, seed):
         dlab = codeclab.Lab(sc, ybin, 1000, modelgen.Gen(seed * 100043 + 1000), pkg=modelgen.directed_package(),
                             ndjson=False, sanitize=not quick).prepare()
         labs.append(dlab)
+        # fields that can be null in every way a type can say so, also through NDJSON (one item per line, read in batches into
+        # reused objects; a null field is omitted from the line)
+        labs.append(codeclab.Lab(sc, ybin, 1001, modelgen.Gen(seed * 100043 + 1001, json_safe=True, cpp_json_safe=True), pkg=modelgen.nullable_package(),
+                                 ndjson=True, sanitize=not quick).prepare())
         for lab in labs:
             if not lab.ok:
                 report.violation(f"{lab.stage}:model", {"seed": seed, "model_index": lab.idx, "error": lab.err, "files": _files(lab)}, "")
@@ -86,10 +90,26 @@ def _exercise(report, lab, lean, n_sets, seed):
                 outc = lab.tmp(".cpp.bin")
                 rc, err = lab.run_cpp(pname, "b", "b", inp, outc, bufs)
                 _judge(report, lab, lean, pj, vals, "cpp", rc, err, outc, ctx, parts, bufs, sidx)
+                if variant == 1:
+                    # empty batches handed to the writer before, between and after the others (theorem empty_batch_writes_nothing)
+                    oute = lab.tmp(".cpp-eb.bin")
+                    rc, err = lab.run_cpp(pname, "b", "b", inp, oute, bufs, empty_batches=True)
+                    report.count("runs.cpp.empty-batches")
+                    _judge(report, lab, lean, pj, vals, "cpp", rc, err, oute, dict(ctx, cpp_mode="empty batches interleaved"), None, None, None)
+                if lab.ndjson and variant == 0:
+                    # through NDJSON and back, the lines read in batches: an item must not depend on the item read before it
+                    mid, outj = lab.tmp(".cpp.ndjson"), lab.tmp(".cpp-ndjson.bin")
+                    rc, err = lab.run_cpp(pname, "b", "j", inp, mid, bufs)
+                    if rc == 0:
+                        rc, err = lab.run_cpp(pname, "j", "b", mid, outj, bufs)
+                    report.count("runs.cpp.through-ndjson")
+                    _judge(report, lab, lean, pj, vals, "cpp", rc, err, outj, dict(ctx, path="binary -> NDJSON -> binary, batched reads"), None, None, None)
+                    pyjobs.append({"proto": pname, "infmt": "j", "outfmt": "b", "in": mid, "out": lab.tmp(".py-ndjson.bin")})
+                    pending.append((pj, vals, pyjobs[-1]["out"], dict(ctx, py_mode="lazy", path="C++ NDJSON -> Python -> binary")))
                 outp = lab.tmp(".py.bin")
                 job = {"proto": pname, "infmt": "b", "outfmt": "b", "in": inp, "out": outp}
                 if variant == 1:
-                    job.update(mode="hold", steps=[{"name": vlib.to_snake(s["name"]), "stream": s["stream"]} for s in pj])
+                    job.update(mode="hold", steps=[{"name": vlib.to_snake(s["name"]), "stream": s["stream"]} for s in pj], empty_batches=(k % 2 == 0))
                 pyjobs.append(job)
                 pending.append((pj, vals, outp, dict(ctx, py_mode=job.get("mode", "lazy"))))
     results = lab.run_py(pyjobs)
@@ -118,7 +138,7 @@ def _judge(report, lab, lean, pj, vals, lang, rc, err, outpath, ctx, parts, bufs
         for gv, wv, s in zip(got, want, pj):
             if gv != wv and s["stream"]:
                 kind = "item-differs:" + ("map" if '"map"' in json.dumps(s["ty"]) else "other")
-        report.violation(f"{lang}:{kind}", dict(replay, got=r["vals"] if len(json.dumps(r["vals"])) < 4000 else "(large)"), "")
+        report.violation(f"{lang}:{kind}", dict(replay, got=r["vals"] if len(json.dumps(r["vals"])) < 4000 else "(large)", first_difference=modelgen.first_diff(want, got)), "")
         return
     if lang == "cpp" and parts is not None:
         # batch sizes delivered by ReadBlocksIntoVector == block sizes the writer emitted
